@@ -155,7 +155,7 @@ def _delta(ctx: Any, prof: str, allow_identity: bool = True) -> dict:
         o = ctx.choose(6 if prof == 'val2' else 5, 'value')
         if o == 4 and prof != 'val2' or o == 5:
             # prints like the clean MetaVar(1) but is a different pattern
-            d[k] = P.MetaVar(1, e_fresh=(P.EVar(0),))
+            d[k] = P.MetaVar(1, e_fresh=(P.EVar(0),), s_fresh=(P.SVar(0),), positive=(P.SVar(1),), negative=(P.SVar(2),), app_ctx_holes=(P.EVar(1),))
         elif o == 0:
             d[k] = P.MetaVar(k)  # identity binding
         elif o == 1:
@@ -231,7 +231,8 @@ def h_lemma(ctx: Any, name: str, twin: bool = False) -> None:
     from proof_generation import pattern as P
 
     # concrete ids here: a lemma run costs seconds across the interpreter stacks, symbolic ids would re-execute it per fork
-    pool = [P.EVar(0), P.EVar(1), P.MetaVar(0), P.MetaVar(1, (P.EVar(0),)), P.MetaVar(1), P.bot()]
+    full = P.MetaVar(1, e_fresh=(P.EVar(0),), s_fresh=(P.SVar(0),), positive=(P.SVar(1),), negative=(P.SVar(2),), app_ctx_holes=(P.EVar(1),))
+    pool = [P.EVar(0), P.EVar(1), P.MetaVar(0), full, P.MetaVar(1), P.bot()]
     vals = {l: pool[ctx.choose(len(pool), 'leaf')] for l in info['letters']}
     prem, concl = info['schema']
     t = Tautology()
